@@ -59,6 +59,10 @@ type FuncVerifier struct {
 	retStates int
 	panicPaths int
 	locks    *lockCfg
+	allows   []frameAllow
+	allowsDone bool
+	mergeMode bool
+	fork     *forkOut
 }
 
 func (fv *FuncVerifier) addOb(st *State, kind, name string, goal Term, src string, pos token.Pos) *Obligation {
